@@ -1482,6 +1482,14 @@ impl AnnotationStore {
                                 offset.mode(),
                             )),
                         ));
+                    } else {
+                        //(an offset is relative to the text of the targeted annotation: without a single
+                        // text selection there is nothing it could select, and it must not be dropped silently)
+                        return Err(StamError::InvalidOffset(
+                            offset.begin,
+                            offset.end,
+                            "AnnotationSelector has an offset but the targeted annotation has no single text selection it could be relative to",
+                        ));
                     }
                 }
                 let target_annotation: &Annotation = self.get(&a_id).map_err(|err| {
